@@ -184,8 +184,7 @@ def chain_ops(live: list[int], T: int) -> list:
             ops += [('splice', [Y], live[0], Z), ('splice', [Y], Z, live[-1]), ('remove', live[0], Z),
                     ('remove', Z, live[0]), ('splice', [Y], None, Z)]
     for r in refs:                                       # a foreign token / the same token twice offered
-        ops += [('ins_after', r, [F]), ('ins_before', r, [F]), ('ins_after', r, [Y, F]),
-                ('ins_after', r, [Y, Y]), ('ins_before', r, [Y, Y])]
+        ops += [('ins_after', r, [F]), ('ins_before', r, [F]), ('ins_after', r, [Y, Y]), ('ins_before', r, [Y, Y])]
     for t in live:
         ops += [('replace', t, F), ('splice', [F], t, t), ('splice', [t, t], t, t), ('splice', [Y, t, Y], t, t)]
     ops.append(('from_tokens', [Y, Y]))
@@ -195,7 +194,8 @@ def chain_ops(live: list[int], T: int) -> list:
     for r in refs:                                       # a live token re-inserted outside the (empty) removed range
         for t in live:
             ops.append(('ins_after', r, [t]))
-            ops.append(('ins_before', r, [t]))
+            if r is None or r == t:
+                ops.append(('ins_before', r, [t]))
     for t in live:
         for u in live:
             if u != t:
@@ -204,8 +204,8 @@ def chain_ops(live: list[int], T: int) -> list:
         for u in live:
             if u not in R:
                 ops.append(('splice', [u], a, b))
-                if R:
-                    ops.append(('splice', [R[0], u], a, b))
+        if R and R[-1] != live[-1]:                      # a token of the range together with the one right after it
+            ops.append(('splice', [R[0], live[live.index(R[-1]) + 1]], a, b))
     for i in range(len(live)):                           # every reversed range
         for j in range(i):
             ops += [('remove', live[i], live[j]), ('splice', [], live[i], live[j]), ('splice', [Y], live[i], live[j])]
@@ -338,8 +338,10 @@ def expand(job) -> dict:
     rendered = [f'({sd.coq_op(o)}, {sd.coq_dump(d)})' for o, d in steps]
     pre_txt = f'(mkscase {lf} {common.coq_list(common.coq_str(t) for t in tx)} '
     lo = at + 1
+    first_text = next((n for n in range(at + 1, len(steps)) if steps[n][0][0] == 'set_text'), len(steps))
     for n in range(at + 1, len(steps) + 1):
-        if n == len(steps) or (cur and size + len(rendered[n]) > 2 * PIECE_BYTES):
+        # the trailing text updates are one piece of their own (they may not be skipped: they change cached sizes)
+        if n == len(steps) or (cur and n == first_text) or (cur and n < first_text and size + len(rendered[n]) > 2 * PIECE_BYTES):
             res['chain'].append(pre_txt + common.coq_list(rendered[:at + 1] + cur) + ')')
             res['chain_meta'].append((lf, tx, seq[:at + 1] + seq[lo:n]))
             cur, size, lo = [], 0, n
@@ -511,7 +513,12 @@ def run_exhaustive(ctx: common.Ctx, prop_sigs: tuple[str, ...], N: int, L: int, 
         lf, tx, seq = chain_meta[i]
         witnesses.append(cut_chain(ctx, lf, tx, seq))
     witnesses.sort(key=lambda w: (len(w[2]), len(w[1]), sum(len(t) for t in w[1])))
-    for lf, tx, seq in witnesses[:3]:
+    confirmed = [w for w in witnesses if _disagrees(ctx, *w)]
+    if witnesses and not confirmed:
+        ctx.fail('corr', 'store-correspondence-exhaustive-unconfirmed',
+                 'a generated cases file of the exhaustive part was rejected, but the sequence agrees when evaluated alone '
+                 '(a defect of the enumerator, not of the store)', {'lf': witnesses[0][0], 'texts': witnesses[0][1], 'ops': witnesses[0][2]})
+    for lf, tx, seq in confirmed[:3]:
         lf, tx, seq = minimise(ctx, lf, tx, seq)
         ctx.fail('corr', 'store-correspondence-exhaustive',
                  'Store.v and token_store.py disagree on the concrete state after an operation sequence of the exhaustive small scope',
